@@ -369,6 +369,11 @@ func (je *joinEnv) checkGo(p *ssa.Function, g *ssa.Go) (bad []string) {
 			}
 		case *ssa.Store:
 			if al, ok := x.Addr.(*ssa.Alloc); ok {
+				// `return a, b` with a, b the named results themselves: go/ssa writes each result cell with its own
+				// value; nothing changes and the compiler emits no store
+				if ld, isLd := x.Val.(*ssa.UnOp); isLd && ld.Op == token.MUL && ld.X == ssa.Value(al) {
+					return
+				}
 				if name, sh := sharedCells[al]; sh && (cellW[name] || cellR[name]) && (!joined || lateCell(name, curW) || lateCell(name, curR)) {
 					bad = append(bad, fmt.Sprintf("variable %s is shared with the goroutine and written by the spawner at %s without a join in between", name, w.InstrPos(ins)))
 				}
